@@ -1561,13 +1561,56 @@ def run_transplant(case):
     return res
 
 
+def prefix_cases():
+    """delete_segment names ONE segment: with a sibling that extends it by one more element in the tree, each of the two
+    must be deletable without touching the other"""
+    out = []
+    for doc, loop, inst in TRANSPLANT:
+        t = _fresh(doc, loop)
+        for a, I in enumerate(t.select(inst)):
+            for ci, c in enumerate(I.children):
+                if ci == 0 or c.type != 'seg':
+                    continue
+                for which in ('longer', 'shorter'):
+                    out.append({'kind': 'prefix', 'doc': doc, 'loop': loop, 'inst': inst, 'a': a, 'child': ci, 'delete': which})
+    return out
+
+
+def run_prefix(case):
+    import pyx12.segment
+    t = _fresh(case['doc'], case['loop'])
+    I = list(t.select(case['inst']))[case['a']]
+    c = I.children[case['child']]
+    short = c.seg_data.format()
+    longer = short[:-1] + '*ZZ~'
+    where = '%s %s #%d: %s with its extension %s added' % (case['doc'], case['inst'], case['a'] + 1, short, longer)
+    before = _segs(I)
+    st, r = call(lambda: I.add_segment(pyx12.segment.Segment(longer, '~', '*', ':')))
+    if st == 'exc' or r is None:
+        return []            # not addable here (BFS judges add_segment)
+    mid = _segs(I)
+    if sorted(mid) != sorted(before + [longer]):
+        return []
+    victim = longer if case['delete'] == 'longer' else short
+    st, r = call(lambda: I.delete_segment(pyx12.segment.Segment(victim, '~', '*', ':')))
+    if st == 'exc':
+        return [('C10|delete_segment|raises %s@%s' % (type(r).__name__, core.where(r)), where + ': delete_segment(%s) raised %r' % (victim, r))]
+    after = _segs(I)
+    want = list(mid)
+    want.remove(victim)
+    if r is not True or after != want:
+        gone = [x for x in mid if x not in after or mid.count(x) != after.count(x)]
+        return [('C10|delete_segment|removes another segment than the one named', where + ': delete_segment(%s) returned %r and removed %r' % (victim, r, gone))]
+    return []
+
+
 def work_transplant(cases):
     _bind()
     P = core.Part()
     for case in cases:
         P.n += 1
-        P.out('transplant|%s|%s' % (case['doc'], 'forward' if case['a'] < case['b'] else 'backward'))
-        for k, m in run_transplant(case):
+        P.out('%s|%s|%s' % (case['kind'], case['doc'], case.get('delete') or ('forward' if case['a'] < case['b'] else 'backward')))
+        for k, m in (run_prefix(case) if case['kind'] == 'prefix' else run_transplant(case)):
             P.bad(k, case, m)
     return P
 
@@ -1578,6 +1621,11 @@ def evaluate(case):
         for name in CFG:
             setup(name)
         return run_transplant(case)
+    if case.get('kind') == 'prefix':
+        _bind()
+        for name in CFG:
+            setup(name)
+        return run_prefix(case)
     hist = [tup(e) for e in case['hist']]
     ms, im = replay(hist[:-1])
     viols, outcome = step(ms, im, hist[-1])
@@ -1603,10 +1651,11 @@ def run(R):
     for name, width, depth in plan:
         stats.append(search(R, name, width, depth, max_states=400000))
     R.cov['searches'] = stats
-    tc = transplant_cases()
+    tc = transplant_cases() + prefix_cases()
     R.pmap(work_transplant, core.chunks(tc, 8))
     R.cov['transplant_cases'] = len(tc)
     R.bounds = {
+        'prefix': 'for every non-anchor child segment of every instance of the repeated loops: add the same segment extended by one element, then delete_segment the longer / the shorter one -- exactly the named one must go',
         'transplant': 'every (source instance, other instance, non-anchor child) of the repeated loops %r: copy the child, add_node it to the other instance, then read (exists/count/get_value of every direct child segment id of both instances through ../), write and delete through ../ -- each law on a fresh tree' % (TRANSPLANT,),
         'trees': {k: 'iter_segments(%s) of document %s, edited node = %s' % (v['loop'], v['doc'], '/'.join(v['base']) or 'the tree root') for k, v in CFG.items()},
         'searches': ['%s alphabet=%s(%d events) depth=%d mutating calls + query battery at every state' % (n, w, len(alphabet(n, w)), d) for n, w, d in plan],
